@@ -56,7 +56,9 @@ class C06(Hist1Prop):
             init = {"op": "construct", "out": 0, "binning": b, "data": gen1.enc_vals(vals),
                     "weights": None if ws is None else [rs(w) for w in ws], "wkind": wk, "keep": rng.random() < 0.8}
         else:
-            dt = rng.choice(["int64", "int32", "float64", "float32", "int16"])
+            # no int16 contents: a chain of up to four factors <= 8 squares to 8^8, which wraps an int16 squared error
+            # (numpy wrap-around is outside the property; int32 / int64 have the room)
+            dt = rng.choice(["int64", "int32", "float64", "float32", "int64"])
             isint = dt.startswith("int")
             f = [rng.randint(0, 40) if isint else rng.randint(0, 160) / 4 for _ in range(nb)]
             e = None if rng.random() < 0.4 else [rng.randint(0, 60) if isint else rng.randint(0, 200) / 4 for _ in range(nb)]
